@@ -327,7 +327,7 @@ func (d *s1Deliveries) snapshot() [][]byte {
 }
 
 func TestC17Line(t *testing.T) {
-	ev.Rule("a real secs1 connection (host/equipment x active/passive, device id 0..0x7FFF) against the reference E4 line peer in virtual time (T1 50 ms, T2 150 ms, T4 150 ms). Outbound: messages with body lengths 0, 2, 243..246, 487..490, 731..733, 976, 977 and drawn lengths to 8 KiB, every stream/function/W/system-bytes value, sent by SendDataMessage and ForwardDataMessage, with the peer NAK-ing a drawn block once; every acknowledged block image must equal the reference split. Inbound: block sequences over the statement's alphabet plus bad checksum / bad length images, sent character by character by the peer; well-formed blocks must be ACKed, corrupt ones NAKed, the handler must receive exactly the messages of the reference assembler, and afterwards the link must still be Selected and deliver a probe message. Duplex (library = host): the application starts a send between two blocks of an inbound 2-4 block message, the peer (master) contends, the remaining inbound blocks are taken inside the library's yielded send; the inbound message must be delivered once and intact and the postponed send must follow with reference block images; non-trivial = a message spans >= 2 blocks or a non-valid block is followed by a delivered message")
+	ev.Rule("a real secs1 connection (host/equipment x active/passive, device id 0..0x7FFF) against the reference E4 line peer in virtual time (T1 50 ms, T2 150 ms, T4 150 ms). Outbound: messages with body lengths 0, 2, 243..246, 487..490, 731..733, 976, 977 and drawn lengths to 8 KiB, every stream/function/W/system-bytes value, sent by SendDataMessage and ForwardDataMessage, with the peer NAK-ing a drawn block once; every acknowledged block image must equal the reference split. Inbound (optionally after T4 was changed at runtime to 60 / 400 ms through UpdateConfigOptions): block sequences over the statement's alphabet plus bad checksum / bad length images, sent character by character by the peer; well-formed blocks must be ACKed, corrupt ones NAKed, the handler must receive exactly the messages of the reference assembler, and afterwards the link must still be Selected and deliver a probe message. Duplex (library = host): the application starts a send between two blocks of an inbound 2-4 block message, the peer (master) contends, the remaining inbound blocks are taken inside the library's yielded send; the inbound message must be delivered once and intact and the postponed send must follow with reference block images; non-trivial = a message spans >= 2 blocks or a non-valid block is followed by a delivered message")
 	vt.Bubble(t, func(t *testing.T) {
 		vt.CheckBubble(t, 6000, 300000, func(rt *rapid.T) { runC17Line(rt) })
 	})
@@ -522,8 +522,17 @@ func runC17Line(rt *rapid.T) {
 		}
 	} else {
 		p.Respond = nil
-		evs := genInbound(rt, device, equip, T4, true)
-		ref := &e4.Assembler{Device: device, IsEquip: equip, T4: T4}
+		// T4 may be re-configured on the live connection: the assembler must follow the live value
+		liveT4 := T4
+		if rapid.IntRange(0, 2).Draw(rt, "retuneT4") == 0 {
+			liveT4 = time.Duration(rapid.SampledFrom([]int{60, 400}).Draw(rt, "liveT4Ms")) * time.Millisecond
+			if err := w.conn.UpdateConfigOptions(hsms.WithT4(liveT4)); err != nil {
+				fail("UpdateConfigOptions(WithT4(%v)) on a live SECS-I connection: %v", liveT4, err)
+			}
+			cls = append(cls, "c17l:t4-changed-at-runtime")
+		}
+		evs := genInbound(rt, device, equip, liveT4, true)
+		ref := &e4.Assembler{Device: device, IsEquip: equip, T4: liveT4}
 		var want [][]byte
 		sawBad := false
 		for i, e := range evs {
@@ -579,7 +588,7 @@ func runC17Line(rt *rapid.T) {
 		}
 		probe := e4.Split(e4.Message{Device: device, R: !equip, Stream: 1, Function: 1, Sys: 0x7fffff01, Body: []byte{0x21, 0x01, 0xaa}})[0]
 		if time.Since(time.Time{}) > 0 {
-			time.Sleep(4 * T4) // any stale partial is past T4 now
+			time.Sleep(4 * max(T4, liveT4)) // any stale partial is past T4 now
 		}
 		res := p.SendRaw(probe.Bytes(), nil)
 		if res.Resp != e4.ACK {
